@@ -35,11 +35,13 @@ def select(ctx, casep):
     cases = [json.loads(x) for x in vf.read_lines(casep)]
     cases.sort(key=lambda c: json.dumps(c, sort_keys=True))
     rng = vf.Rng(ctx.seed)
-    over = [c for c in cases if c["over12"]]
+    large = [c for c in cases if c["large"] and c["fan"] and c["over12"]]      # >= 12 services with non-scalar-value indices per round
+    twice = [c for c in cases if c["twice"] and c["over12"] and not (c["large"] and c["fan"])]   # one service, two outputs in a block
+    over = [c for c in cases if c["over12"] and not c["twice"] and not (c["large"] and c["fan"])]
     under = [c for c in cases if not c["over12"]]
-    n_over, n_under = (10, 4) if ctx.quick else (110, 30)
+    quota = ((large, 3), (twice, 5), (over, 3), (under, 3)) if ctx.quick else ((large, 30), (twice, 50), (over, 35), (under, 25))
     pick = []
-    for pool, k in ((over, n_over), (under, n_under)):
+    for pool, k in quota:
         pool = list(pool)
         for _ in range(min(k, len(pool))):
             pick.append(pool.pop(rng.n(len(pool))))
@@ -63,7 +65,7 @@ def run(ctx):
     dependent = []
     # one run per component that the model predicts to be order-dependent (TLC stops at the first violated invariant),
     # one run for the components predicted to be order-independent
-    for invs in ([["InvStore"]] if q else [["InvStore"], ["InvT"], ["InvU"], ["InvSpent", "InvUSet", "InvRounds"]]):
+    for invs in ([["InvStore"]] if q else [["InvStore"], ["InvT"], ["InvU"], ["InvSpent", "InvUSet", "InvRounds", "InvB"]]):
         res = mc_mode(ctx, "asis", 2, invs, 2 if q else 4, "MC_AccRounds/asis-" + "+".join(invs), False)
         if res.inv_violated:
             dependent += res.inv_violated
